@@ -1054,7 +1054,7 @@ func TestVerifC14Seq(t *testing.T) {
 	}
 	rep := verifutil.NewReport()
 	defer rep.Write()
-	nScen := verifutil.Scale(6, 30)
+	nScen := verifutil.Scale(6, 200)
 	nOps := verifutil.Scale(500, 900)
 	for sc := 0; sc < nScen; sc++ {
 		var progress int64
